@@ -945,6 +945,7 @@ def q8(ctx, fns, m):
         fw = [w for w in ws if w['start'] == 0]
         bw = [w for w in ws if w['start'] == 1]
         probs = []
+        unks = []
         if len(fw) != 1 or len(bw) != 1:
             probs.append('expected one walk from head.next and one from head.prev, found %d and %d' % (len(fw), len(bw)))
         else:
@@ -957,17 +958,33 @@ def q8(ctx, fns, m):
                 probs.append('forward positions are not 0,1,2,..: counter starts at %s, steps by %s and the %s value is compared with idx' % (a.get('init'), a.get('step'), a.get('cmpd')))
             if b['cnt'] is None or (b['init'], b['step'], b['cmpd']) != (0, -1, 'new'):
                 probs.append('backward positions are not -1,-2,..: counter starts at %s, steps by %s and the %s value is compared with idx' % (b.get('init'), b.get('step'), b.get('cmpd')))
-            # which walk is taken: idx >= 0 forward
-            e = f.entry.term
-            d = f.defs.get(e.ops[0].v) if e.op == 'br' and e.ops and e.ops[0].k == 'reg' else None
-            okdir = False
-            if d is not None and d.op == 'icmp' and d.ops[0].k == 'reg' and d.ops[0].v == f.params[1][1] and d.ops[1].k == 'int':
+            # which walk is taken: idx >= 0 forward - the branch that separates the two walks (the entry, or behind fast paths)
+            okdir = None
+            for blk_ in f.blocks:
+                e = blk_.term
+                d = f.defs.get(e.ops[0].v) if e.op == 'br' and e.ops and e.ops[0].k == 'reg' else None
+                if d is None or d.op != 'icmp' or len(e.x['labels']) != 2:
+                    continue
                 t_, f_ = [f.bmap[l] for l in e.x['labels']]
-                nonneg = {('sge', 0): True, ('sgt', -1): True, ('slt', 0): False, ('sle', -1): False}.get((d.x['pred'], d.ops[1].v if d.ops[1].v < 2 ** 63 else d.ops[1].v - 2 ** 64))
-                if nonneg is not None:
-                    fwd_blk, bwd_blk = (t_, f_) if nonneg else (f_, t_)
-                    okdir = f.reachable(fwd_blk, a['header']) and not f.reachable(fwd_blk, b['header']) and f.reachable(bwd_blk, b['header']) and not f.reachable(bwd_blk, a['header'])
-            if not okdir:
+                ra = (f.reachable(t_, a['header']) or t_ is a['header'], f.reachable(f_, a['header']) or f_ is a['header'])
+                rb = (f.reachable(t_, b['header']) or t_ is b['header'], f.reachable(f_, b['header']) or f_ is b['header'])
+                if not ((ra == (True, False) and rb == (False, True)) or (ra == (False, True) and rb == (True, False))):
+                    continue
+                # this branch decides between the walks
+                okdir = False
+                if d.ops[0].k == 'reg' and d.ops[0].v == f.params[1][1] and d.ops[1].k == 'int':
+                    nonneg = {('sge', 0): True, ('sgt', -1): True, ('slt', 0): False, ('sle', -1): False}.get((d.x['pred'], d.ops[1].v if d.ops[1].v < 2 ** 63 else d.ops[1].v - 2 ** 64))
+                    if nonneg is not None:
+                        okdir = (ra == (True, False)) == nonneg
+                elif d.ops[1].k == 'reg' and d.ops[1].v == f.params[1][1] and d.ops[0].k == 'int':
+                    # mirrored spelling 0 <= idx, -1 < idx, 0 > idx, -1 >= idx
+                    nonneg = {('sle', 0): True, ('slt', -1): True, ('sgt', 0): False, ('sge', -1): False}.get((d.x['pred'], d.ops[0].v if d.ops[0].v < 2 ** 63 else d.ops[0].v - 2 ** 64))
+                    if nonneg is not None:
+                        okdir = (ra == (True, False)) == nonneg
+                break
+            if okdir is None:
+                unks.append('no single branch separates the forward from the backward walk')
+            elif not okdir:
                 probs.append('the walk direction is not chosen by idx >= 0 (forward) / idx < 0 (backward)')
             # returned values: payload of the current node or null
             rets = [i for i in f.instrs() if i.op == 'ret']
@@ -989,9 +1006,17 @@ def q8(ctx, fns, m):
                     while bd is not None and bd.op == 'phi' and len(bd.ops) == 1:
                         base = bd.ops[0]
                         bd = f.defs.get(base.v) if base.k == 'reg' else None
-                    if g is None or g.op != 'gep' or len(g.ops) != 2 or g.ops[1].k != 'int' or g.ops[1].v != 1 or base.v not in (a['it'].res, b['it'].res):
+                    from_walk = (base is not None and base.k == 'reg' and base.v in (a['it'].res, b['it'].res)) or \
+                        (o.k == 'reg' and any(o.v == w_['it'].res or path.derived_from(f, o, w_['it'].res) for w_ in (a, b)))
+                    if not from_walk or (g is not None and g.op == 'gep' and base is not None and base.k == 'reg' and base.v not in (a['it'].res, b['it'].res)):
+                        # a value that is not produced by one of the walks (a fast path for an end?): not decided by this rule (Q12 / Q10 do the ends)
+                        unks.append('a returned value does not come from one of the two walks')
+                    elif g is None or g.op != 'gep' or len(g.ops) != 2 or g.ops[1].k != 'int' or g.ops[1].v != 1 or base.v not in (a['it'].res, b['it'].res):
                         probs.append('a returned value is not the payload (node + 1) of the node the walk stands on')
-        (rep.bad if probs else rep.ok)('Q8', 'a_que_at', '; '.join(probs[:3]) or 'forward from head.next with positions 0,1,2,.., backward from head.prev with positions -1,-2,..; '
+        if not probs and unks:
+            rep.unk('Q8', 'a_que_at', '; '.join(sorted(set(unks))[:2]), loc=f.loc(f.entry.term))
+        else:
+            (rep.bad if probs else rep.ok)('Q8', 'a_que_at', '; '.join(probs[:3]) or 'forward from head.next with positions 0,1,2,.., backward from head.prev with positions -1,-2,..; '
                                        'returns the payload of the node at position idx or null at the sentinel', **({'key': 'a_que_at: positional walk', 'loc': f.loc(f.entry.term)} if probs else {}))
     for n in ('a_que_insert', 'a_que_remove'):
         f = fns.get(n)
